@@ -5,7 +5,7 @@ import numpy as truenp
 from prysm.mathops import np  # NOQA
 from prysm.coordinates import optimize_xy_separable
 
-from .dickson import dickson1_seq
+from .dickson import dickson2_seq
 
 
 def xy_j_to_mn(j):
@@ -117,9 +117,10 @@ def xy_seq(mns, x, y, cartesian_grid=True):
 
     ms = truenp.arange(0, maxm+1)
     ns = truenp.arange(0, maxn+1)
-    # dicksons with alpha=0 are the monomials
-    x_seq = list(dickson1_seq(ms, 0, x))
-    y_seq = list(dickson1_seq(ns, 0, y))
+    # dicksons of the second kind with alpha=0 are the monomials
+    # (the first kind has D_0 = 2, which would double every term with a zero exponent)
+    x_seq = list(dickson2_seq(ms, 0, x))
+    y_seq = list(dickson2_seq(ns, 0, y))
 
     out = []
     for m, n in mns:
